@@ -9,7 +9,7 @@ class P(vlib.Prop):
             "run 6 times so Go's map randomisation samples iteration orders; provname stage: pkg/build's packageNameRegex sub-match. "
             "api stage: synthetic signed repositories for 1-3 architectures (harness/synthrepo; versions present on some architectures only, "
             "virtuals requested by provided name, providers differing per architecture, tagged repositories with pinned requests, operators, "
-            "duplicates) through build.NewMultiArch/BuildPackageLists and build.LockImageConfiguration (3-4 runs each), then every emitted lock "
+            "duplicates; corpus: every finding's replay incl. C09-F6 member-excluded-by-conflict-entry-of-member) through build.NewMultiArch/BuildPackageLists and build.LockImageConfiguration (3-4 runs each), then every emitted lock "
             "resolved again; cli stage: `apko lock` (lock.json entries judged against the package files: ranges, sha1/sha256 recomputed over the "
             "recorded ranges) and `apko build` with and without --lockfile (installed database and image manifest), including a repository that "
             "publishes a newer version after locking. A case is non-trivial when it has >= 2 architectures and a non-empty request list; "
@@ -23,18 +23,23 @@ class P(vlib.Prop):
     assumptions = (
         "inputs of unify are as LockImageConfiguration builds them (packages = keys of versions; distinct architectures, none called 'index'); the harness also feeds ill-formed ones to the model comparison only",
         "expandapk reports the byte sizes of the three gzip members and sha1(signature), sha1(control), sha256(data): modelled by `expand` over hash parameters, checked against real .apk files by the cli stage",
-        "c09_fixpoint_partial is about an abstract resolver with three stated hypotheses (sound, minimal, finds the solution of an exact lock); they are not proved of a resolver model",
+        "c09_fixpoint_partial is about an abstract resolver with three stated hypotheses (sound, minimal, finds the solution of an exact lock); c09_fixpoint_resolver_partial examines them for Model/Resolver.v (the model C02/C08/C14 tie to repo.go by differential comparison) inside the envelope of c02_closed_partial: sound and minimal are proved, the third is refuted in general (C09-F6) and proved under three stated extra hypotheses",
+        "c09_fixpoint_resolver_partial speaks of ONE architecture's resolution and of the lock entries name=version of its members in any order; the @pin part of entries and the cross-architecture intersection are the business of the unify theorems",
         "the pin of a lock entry is unify's own reading of the request (text from the first '@'); the validators use the resolver's grammar (C03 model) instead and agree on every generated case",
     )
     level_text = ("c09_unify_index / c09_unify_per_arch / c09_unify_order_independent hold for every request list, every number of architectures and every "
                   "set/map iteration order of an executable model of build.unify whose delimiters, formats and sentinel key are regenerated from lock.go; "
                   "c09_ranges holds for all member contents over the range arithmetic translated from LockCmd and the field copies translated from NewAPKResolved; "
                   "c09_lock_entries_exact characterises what filterPackages admits for an exact entry (over the C03 constraint/version model); c09_lock_install is "
-                  "about the model of the Lockfile branch; the fixpoint itself is stated in full and proved under hypotheses on an abstract resolver, and searched "
-                  "for counterexamples on the real code (three recorded findings). The model is tied to the code by differential comparison through a verif hook and "
+                  "about the model of the Lockfile branch; the fixpoint itself is stated in full and proved under hypotheses on an abstract resolver (c09_fixpoint_partial) "
+                  "and, for the resolver model Model/Resolver.v inside the envelope of c02_closed_partial, c09_fixpoint_resolver_partial proves that every list of the lock "
+                  "entries of a result resolves — when it resolves — to exactly the same members, and that it does resolve when every member answers its own entry, no member is "
+                  "excluded by a member's conflict entry and dependencies are well-formed; c09_fixpoint_resolver_refuted shows that without the second condition it does not "
+                  "(finding C09-F6, reproduced on the real code); the fixpoint is also searched for counterexamples on the real code end to end (findings C09-F1, F2, F4, F6). The model is tied to the code by differential comparison through a verif hook and "
                   "by validators evaluated in Coq on outputs of LockImageConfiguration, apko lock and apko build --lockfile.")
     level_note = ("trusted: Coq kernel, goextract, Go harness/printer, synthrepo's independent apk writer; modelled not verified: Go text of unify/LockCmd/"
-                  "installablePackagesForArch, expandapk's member splitting, sets.Set/reflect.DeepEqual semantics, the resolver; correspondence is differential testing, not proof")
+                  "installablePackagesForArch, expandapk's member splitting, sets.Set/reflect.DeepEqual semantics; the resolver is the hand-written model of C02 (Model/Resolver.v), tied to repo.go by "
+                  "C02's differential stage, and c09_fixpoint_resolver_partial holds only inside C02's envelope (one provider per name, no install_if, ...); correspondence is differential testing, not proof")
     design_ref = "DESIGN.md 7 C09"
     modelled_not_verified = ("unify, LockImageConfiguration's construction of its inputs, one lock.json entry, installablePackagesForArch and the version test of filterPackages "
                              "are modelled by hand (Model/Lock.v); regex, delimiters, formats, sentinel, range arithmetic and field copies are regenerated from the source; "
